@@ -452,14 +452,24 @@ class CollisionArray:
         # Evaluate the original collisions on the interpolated grid, create a new
         # polynomial from the result and finally a new CollisionArray from the
         # polynomial data
-        newShape = 2 * (
+        # evaluate() returns the axes (points, particles, particles, polynomial1,
+        # polynomial2): split the points axis into (pz, pp) and move it between the
+        # two particle axes.
+        pointsShape = (
+            targetGrid.N - 1,
+            targetGrid.N - 1,
+            len(source.particles),
             len(source.particles),
             targetGrid.N - 1,
             targetGrid.N - 1,
         )
-        interpolatedData = np.array(source.polynomialData.evaluate(gridPoints, (1, 2)))[
-            ..., : targetGrid.N - 1, : targetGrid.N - 1
-        ].reshape(newShape)
+        interpolatedData = (
+            np.array(source.polynomialData.evaluate(gridPoints, (1, 2)))[
+                ..., : targetGrid.N - 1, : targetGrid.N - 1
+            ]
+            .reshape(pointsShape)
+            .transpose((2, 0, 1, 3, 4, 5))
+        )
 
         interpolatedPolynomial = Polynomial(
             interpolatedData,
